@@ -700,7 +700,7 @@ func poolScheduleReplay(c *core.Ctx) {
 	}
 	trace := filepath.Join(dir, "trace.ndjson")
 	out, code, to := core.Run(dir, []string{"GORACE=halt_on_error=0"}, 10*time.Minute, nil, rworker, "poolsched", "-schedules", filepath.Join(dir, "schedules.json"), "-needs", filepath.Join(dir, "needs.json"),
-		"-dir", files, "-out", trace, "-contend-rounds", fmt.Sprint(c.Pick(3, 6)))
+		"-dir", files, "-out", trace, "-contend-rounds", fmt.Sprint(c.Pick(6, 12)))
 	races := strings.Count(out, "WARNING: DATA RACE")
 	if to || (code != 0 && races == 0) {
 		c.Machineryf("pool schedule replay failed (%d): %s", code, out)
